@@ -219,8 +219,8 @@ def run_tlc(module, cfg=None, workdir=None, workers=8, env=None, timeout=1800, s
             depth=None, coverage=True, deque=False, xmx="6g", extra=None, seed=None, dfid=None):
     """Run TLC on spec/<module>.tla with spec/<cfg> (default <module>.cfg)."""
     os.makedirs(workdir, exist_ok=True)
-    md = os.path.join(workdir, "md_%s_%d" % (os.path.basename(cfg or module).replace(".", "_"), os.getpid()))
-    shutil.rmtree(md, ignore_errors=True)
+    import tempfile
+    md = tempfile.mkdtemp(prefix="md_%s_" % os.path.basename(cfg or module).replace(".", "_"), dir=workdir)
     cfgp = os.path.join(SPEC, cfg or module + ".cfg")
     jopts = "-Xss1g"
     if deque:
